@@ -32,7 +32,8 @@ NormKeys(m) == [k \in DOMAIN m |-> m[k]]
 NormPath(p) == [root |-> p.root, elems |-> [i \in 1..Len(p.elems) |-> [n |-> p.elems[i].n, keys |-> NormKeys(p.elems[i].keys)]]]
 \* the state the code logged, as a machine state (judged flags from the spec's prediction)
 Adopt(nx, e) ==
-  [nx EXCEPT !.ds = [i \in 1..Len(e.ds) |-> IF i <= Len(nx.ds) /\ ~nx.ds[i].j THEN Unj(e.ds[i]) ELSE e.ds[i]],
+  [nx EXCEPT !.ds = [i \in 1..Len(e.ds) |-> IF (i <= Len(nx.ds) /\ ~nx.ds[i].j) \/ e.ds[i].n.c = "oom"   \* a logged number outside the model is never judged further
+                                          THEN Unj(e.ds[i]) ELSE e.ds[i]],
              !.ps = [i \in 1..Len(e.ps) |-> NormPath(e.ps[i])],
              !.ks = [i \in 1..Len(e.ks) |-> NormKeys(e.ks[i])],
              !.predCount = e.predCount, !.predEval = e.predEval, !.llf = e.llf, !.prevELP = e.prevELP,
